@@ -72,6 +72,15 @@ class Builder:
             d["k"] = r.choice(["v", "V", "w", "vw"])
         return d or None
 
+    def lib_for(self, level):
+        """Library of a definition of the given level; with acyclic_libs lower levels never sit above."""
+        libs = self.libs
+        if not self.c.get("acyclic_libs"):
+            return self.r.choice(libs)
+        top = self.c["depth"]
+        hi = min(len(libs) - 1, (level * len(libs)) // (top + 1))
+        return libs[hi]
+
     def width(self):
         return self.r.randint(1, self.c["max_width"])
 
@@ -101,23 +110,23 @@ class Builder:
         self.libs = libs
         # level 0: leaves (ports only)
         for k in range(c["n_leaf"]):
-            lib = r.choice(libs)
+            lib = self.lib_for(0)
             i = self.emit({"op": "create_definition", "on": lib, "name": self.nm(r.choice(LEAF_NAMES)), "props": self.pp()})
             d = "e%d.0" % i
             ports = self.make_ports(d, r.randint(0 if r.random() < 0.1 else 1, c["max_ports"]), True)
-            self.defs.append({"h": d, "level": 0, "ports": ports, "leaf": True})
+            self.defs.append({"h": d, "level": 0, "ports": ports, "leaf": True, "libh": lib})
         if c["wire_only"]:
-            lib = r.choice(libs)
+            lib = self.lib_for(0)
             i = self.emit({"op": "create_definition", "on": lib, "name": self.nm("wireonly")})
             d = "e%d.0" % i
             ports = self.make_ports(d, r.randint(1, max(2, c["max_ports"])), False)
-            rec = {"h": d, "level": 0, "ports": ports, "leaf": False}
+            rec = {"h": d, "level": 0, "ports": ports, "leaf": False, "libh": lib}
             self.body(rec, allow_children=False)
             self.defs.append(rec)
         # intermediate levels
         for level in range(1, c["depth"]):
             for k in range(r.randint(1, c["n_mid"])):
-                lib = r.choice(libs)
+                lib = self.lib_for(level)
                 nm = self.nm("mod")
                 prev = [x for x in self.defs if x.get("name") and not x["leaf"] and x.get("lib") == lib]
                 if prev and r.random() < c.get("uniq_names", 0.0):
@@ -128,26 +137,38 @@ class Builder:
                 i = self.emit({"op": "create_definition", "on": lib, "name": nm, "props": self.pp()})
                 d = "e%d.0" % i
                 ports = self.make_ports(d, r.randint(0 if r.random() < 0.15 else 1, c["max_ports"]), False)
-                rec = {"h": d, "level": level, "ports": ports, "leaf": False, "name": nm, "lib": lib}
+                rec = {"h": d, "level": level, "ports": ports, "leaf": False, "name": nm, "lib": lib, "libh": lib}
                 self.body(rec)
                 self.defs.append(rec)
         # top
-        lib = r.choice(libs)
+        lib = self.lib_for(c["depth"])
         i = self.emit({"op": "create_definition", "on": lib, "name": self.nm("top")})
         d = "e%d.0" % i
         ports = self.make_ports(d, r.randint(0, c["max_ports"]), False)
-        rec = {"h": d, "level": c["depth"], "ports": ports, "leaf": False}
+        rec = {"h": d, "level": c["depth"], "ports": ports, "leaf": False, "libh": lib}
         self.body(rec, prefer_high=True)
         self.defs.append(rec)
         self.topdef = d
         if c["extra_unreachable"]:
-            i = self.emit({"op": "create_definition", "on": r.choice(libs), "name": self.nm("unused")})
-            rec2 = {"h": "e%d.0" % i, "level": c["depth"], "ports": [], "leaf": False}
+            ulib = self.lib_for(c["depth"])
+            i = self.emit({"op": "create_definition", "on": ulib, "name": self.nm("unused")})
+            rec2 = {"h": "e%d.0" % i, "level": c["depth"], "ports": [], "leaf": False, "libh": ulib}
             self.body(rec2)
+            self.extra_defs = [rec2]
         i = self.emit({"op": "set_top", "on": self.netlist, "x": d})
         self.top = "e%d.0" % i
         if c.get("top_name", True):
             self.emit({"op": "set_name", "on": self.top, "v": "topinst"})
+        if c.get("shuffle_order"):
+            # declaration order that is not dependency order (the writers must sort)
+            ls = list(libs)
+            r.shuffle(ls)
+            self.emit({"op": "set_libraries", "on": self.netlist, "xs": ls})
+            for lib in libs:
+                ds = [x["h"] for x in self.defs + getattr(self, "extra_defs", []) if x.get("libh") == lib]
+                if len(ds) > 1:
+                    r.shuffle(ds)
+                    self.emit({"op": "set_definitions", "on": lib, "xs": ds})
         if c["orphan_instance"] and self.defs:
             t = r.choice(self.defs)
             i = self.emit({"op": "instance_new", "name": self.nm("orphan")})
